@@ -405,6 +405,8 @@ class CallMixin:
         """z3 Bool: class term sub_t is a subclass of python class value(s) c"""
         if isinstance(c, PyTup):
             return z3.Or(*[self.subclass_term(sub_t, x, st) for x in c.items]) if c.items else z3.BoolVal(False)
+        if isinstance(c, OptList):
+            c = c.lst
         if self.is_listlike(c):
             lv = self.get_list(st, c)
             i = z3.Int("i!sc")
